@@ -151,7 +151,8 @@ class Prop:
     pid = 'C04'
     props_file = 'Props/C04.v'
     required_theorems = ['frames_within_limit', 'decode_encode_routes', 'split_preserves_multiset', 'reach_frames_all_families',
-                         'unreach_frames_all_families', 'open_roundtrip']
+                         'unreach_frames_all_families', 'open_roundtrip', 'frame_lengths_consistent', 'eor_frame',
+                         'peer_codec_agrees', 'as4_path_roundtrip']
     extra_targets = ['Model/WireEnc.vo']
     correspondence_name = 'Model/WireEnc.v encode_to vs rustybgp_packet::bgp::PeerCodec::encode_to (harness/hx-enc), debug and release'
     rule = 'TBD'
